@@ -20,7 +20,7 @@ SHIFT_INV = ["mae", "rmse", "bias", "stderror", "ef"]
 
 
 def plan(tier, seed):
-    n = 6 if tier == "quick" else 150
+    n = 14 if tier == "quick" else 200
     return [{"seed": seed, "k": k, "n": n} for k in range(16)]
 
 
